@@ -464,10 +464,9 @@ func run(t *testing.T, via string) {
 
 	rapid.Check(t, func(rt *rapid.T) {
 		if n++; n%renew == 0 {
-			w.s.Logout()
-			w.b.Destroy()
+			w.close()
 
-			*w = *newWorld(t)
+			w = newWorld(t)
 		}
 
 		oneMessage(rt, w, via)
@@ -475,12 +474,12 @@ func run(t *testing.T, via string) {
 }
 
 func TestC13Append(t *testing.T) {
-	ev.Checks(1500, 3600)
+	ev.Checks(1500, 8000)
 	run(t, "append")
 }
 
 func TestC13Connector(t *testing.T) {
-	ev.Checks(900, 2200)
+	ev.Checks(900, 5000)
 	run(t, "connector")
 }
 
@@ -544,6 +543,7 @@ func TestC13PartialBeyondGrammar(t *testing.T) {
 		}
 
 		if r.Err != nil {
+			inconclusive(rt, cmd, r.Err)
 			rt.Fatalf("C13: %s: response stream broken or connection lost: %v\n%s", cmd, r.Err, tail(w.b.Hist.Lines(), 6))
 		}
 
